@@ -20,6 +20,7 @@ RuleOf(D) ==
   IF ~D.hasfooter \/ D.footer = <<>> THEN [kind |-> "none"]
   ELSE LET p == ParseSpec(D.footer) IN
        IF ~p.ok THEN [kind |-> "bad"]
+       ELSE IF p.hasdst /\ p.dst_abbr = <<>> THEN [kind |-> "odd"]     \* "<>" as the dst name: left open (DESIGN.md)
        ELSE IF ~p.hasdst THEN [kind |-> "std", stdT |-> TypeRec(p.std_off, FALSE, p.std_abbr)]
        ELSE [kind |-> IF AllYearDST(p) THEN "allyear" ELSE "dst",
              stdT |-> TypeRec(p.std_off, FALSE, p.std_abbr),
@@ -190,6 +191,7 @@ SeamWellFormed(Z) ==
 FooterConsistent(Z) ==
   CASE Z.rule.kind = "none" -> TRUE
     [] Z.rule.kind = "bad" -> FALSE
+    [] Z.rule.kind = "odd" -> FALSE
     [] Z.rule.kind = "std" -> Equiv(LastType(Z), Z.rule.stdT)
     [] Z.rule.kind = "allyear" -> Equiv(LastType(Z), Z.rule.dstT)
     [] Z.rule.kind = "dst" -> TRUE
